@@ -315,7 +315,7 @@ def routines(ids):
         "ConfigFile.write_to_path(new)": with_repo(config_write_new),
         "object_store.add_object": with_repo(lambda r: r.object_store.add_object(Blob.from_string(b"fresh object\n" * 50))),
         "object_store.add_objects(pack)": with_repo(lambda r: r.object_store.add_objects([(Blob.from_string(b"packed %d\n" % i), None) for i in range(4)])),
-        "Repo._put_named_file": with_repo(lambda r: r._put_named_file("description", b"a description\n" * 20)),
+        "Repo._put_named_file": with_repo(lambda r: r._put_named_file("description", b"a description\n" * 20)),  # (anchored in the property; skipped if absent)
         "object_store.add_alternate_path": with_repo(lambda r: r.object_store.add_alternate_path("/nonexistent/objects")),
         "object_store.write_commit_graph": with_repo(lambda r: r.object_store.write_commit_graph([ids[2]])),
         "Repo.update_shallow": with_repo(lambda r: r.update_shallow({ids[1]}, None)),
@@ -472,7 +472,9 @@ def run(ctx):
     selftest(ctx)
     ctx.parallel(_explore, protocol_items(ctx))
     template, ids = _prepare(ctx)
-    names = sorted(routines(ids))
+    from dulwich.repo import Repo as _R
+
+    names = sorted(n for n in routines(ids) if n != "Repo._put_named_file" or hasattr(_R, "_put_named_file"))
     ctx.note("routines", names)
     ctx.parallel(_part_faults, [(n, r, 4) for n in names for r in range(4)])
     ctx.note("exhaustive", True)
